@@ -3,6 +3,7 @@ from engine.facts import CannotDecide, callee_is, path_matches, strip_generics
 from engine import tab
 from .common import norm_path
 
+EXTRA_CONFIGS = ('serde-transport',)   # feature configurations re-analysed in the thorough tier
 META = {
     'level': 'other',
     'technique': 'static table extraction from MIR switch arms (writer vs reader), serde call-type agreement, derive-visitor inspection, forwarder provenance',
